@@ -67,13 +67,17 @@ w("""Each of these was a check reporting a violation on code that satisfies the 
 * C10 (thorough tier): twelve single-byte flips covered by the listed finding (payload corruption is undetectable without a checksum) were printed as new violations because the FINAL row count changed after the merge stage; the matcher now requires an unchanged row count only for concatenated answers, where the coordinator's row-count check pins it.
 * C11 / C19 (thorough tier): bounds that did not finish inside the time cap were cut (C11: length-3 inventories over a reduced kind set and 16 node counts; C19: depth-3 histories for same-actor reuse chains plus every 50th other) and the cut is stated in the evidence.
 * Stale harness binaries after reverting a seeded change produced spurious violations with `--no-build`; the procedure is now rebuild-after-revert.
+* C29: wall-clock time inside the 12-process pool on a loaded machine was read as a hang (a 77-way join that takes 0.5 s alone 'took 38 s'); statements slower than the limit or timed out in the pool are now re-timed alone with a load-scaled limit, and only a crash, a panic or a statement that is still slow alone is a violation. The depth families are spread over balanced tasks (every n up to 400, then every 25th).
+* C22: the new subquery-above-join statements were first run in strict mode, so the explicit `NotImplemented` refusal of a dictionary-typed outer value counted as a violation; an explicit error is accepted there as the property says (the refusal itself was then repaired in the engine).
+* C23: the new inner-name IN shapes reproduced the listed finding `in_subquery_outer_ref_captured_by_same_named_inner_column` through a different statement; the finding's deviant model (outer reference bound to the inner column) is now attached to those shapes too, so exactly that behaviour is matched and anything else is reported.
+* C03 / C25 / C22 quick tiers exceeded a minute only while several 744-test baselines ran on the same machine; walls in the evidence are from the final, unloaded pass.
 """)
 w("### 7.5 Detection demonstrated\n")
-w("Fresh sub-agents, given only one property's text and a private worktree, produced a realistic property-breaking change each that compiles and passes the 744-test baseline, with a demonstration test. Every one was re-verified independently (`seeded/<id>/verify.json`: demo fails with the patch, passes without, baseline passes with it), then applied to `/repo`'s working tree, checked, and reverted. Checks that missed a change were strengthened until they caught it; the strengthening is general (new statement families, layouts, states), never the seeded input itself.\n")
+w("Fresh sub-agents, given only one property's text and a private worktree (second-round agents also a one-line note of which function the first seed had changed, so that they pick another mechanism), produced a realistic property-breaking change each that compiles and passes the 744-test baseline, with a demonstration test. Every one was re-verified independently (`seeded/<id>/verify.json`: demo fails with the patch, passes without, baseline passes with it), then applied to `/repo`'s working tree, checked, and reverted. Checks that missed a change were strengthened until they caught it; the strengthening is general (new statement families, layouts, states), never the seeded input itself.\n")
 w("| seed | change | caught by | missed at first / strengthening |\n|---|---|---|---|")
-for s in sorted(glob.glob('/verif/seeded/*')):
+for s in sorted(glob.glob('/verif/seeded/*') + glob.glob('/verif/seeded/*/round2')):
     m=json.load(open(s+'/meta.json')); v=json.load(open(s+'/verify.json'))
-    w("| %s | %s | %s | %s |" % (os.path.basename(s), m.get('summary','').replace('\n',' ').replace('|','/')[:300], '; '.join(v.get('detected_by') or []), ('; '.join(v.get('missed_at_first_by') or []) + (' -> ' + v['strengthening'] if v.get('strengthening') else '')) or '-'))
+    w("| %s | %s | %s | %s |" % (os.path.basename(s) if not s.endswith('round2') else os.path.basename(os.path.dirname(s)) + ' (2nd)', m.get('summary','').replace('\n',' ').replace('|','/')[:300], '; '.join(v.get('detected_by') or []), ('; '.join(v.get('missed_at_first_by') or []) + (' -> ' + v['strengthening'] if v.get('strengthening') else '')) or '-'))
 w("")
 w("### 7.6 Limits that remain\n")
 w("""* Interleavings of OS threads inside rayon / tokio pools are not enumerated anywhere (loom cannot host the engine's data-parallel kernels: `loom::sync::Arc` lacks `make_mut`, shuttle's `Arc` is std's). C07 enumerates poll orders at await-point granularity and thread-count / batch-layout configurations; C33 enumerates real interleavings of the memory pool only.
